@@ -298,3 +298,4 @@ PROP = Prop(
                  'divergence identity on curved 3-D meshes is skipped (face quadrature of rational surface factors)'],
     subs=[Sub('maps', body, strategy=case, quick=700, thorough=15000)],
     design_ref='DESIGN.md section 6, C10')
+PROP.rule += ('. Added in round 2: MappingAffine(mesh, tind=subset) (subset sorted / unsorted / repeated) against the full mapping called with the same subset.')
